@@ -2999,19 +2999,19 @@ static int32_t parseGeneralNames(psPool_t *pool, const unsigned char **buf,
                 psTraceCrypto("ASN parse error SAN otherName oid\n");
                 return -1;
             }
-            if (getAsnLength(&p, (int32) (extEnd - p), &activeName->oidLen) < 0)
+            if (getAsnLength(&p, (int32) (extEnd - p), &activeName->oidLen) < 0 ||
+                activeName->oidLen < 1 ||
+                (uint32) (extEnd - p) < activeName->oidLen)
             {
                 psTraceCrypto("ASN parse error SAN otherName oid\n");
                 return -1;
             }
             activeName->oid = psMalloc(pool, activeName->oidLen);
-            if ((uint32) (extEnd - p) < activeName->oidLen)
+            if (activeName->oid == NULL)
             {
-
-                psTraceCrypto("ASN parse error SAN otherName oid\n");
-                return -1;
+                psError("Memory allocation error: activeName->oid\n");
+                return PS_MEM_FAIL;
             }
-            /* Note activeName->oidLen could be zero here */
             Memcpy(activeName->oid, p, activeName->oidLen);
             p += activeName->oidLen;
             /* value looks like
